@@ -1,94 +1,106 @@
 // K5b — chunk.rs type-state: ArchiveChunk::verify, VerifiedChunk::new, CompressedArchiveChunk::decompress (raw).
-// Blake2b-512 is replaced (kani::stub) by a deterministic stand-in function of the data, so the proof is
-// about how verify USES the digest, for every descriptor hash of every length 0..=64 and every chunk of <= 3 bytes
-// (chunk length only feeds the stand-in; verify has no data-dependent control flow besides the comparison).
+// Blake2b-512 is replaced (kani::stub) by a stand-in returning a fixed 64-byte digest D, so the proofs are about
+// how the functions USE the digest: for every descriptor hash of every length 0..=64, verify returns Ok exactly
+// when the hash equals the first |hash| bytes of D.  The chunk payload is a fixed 3-byte static buffer (verify has
+// no payload-dependent control flow besides the digest; a symbolic payload only multiplies CBMC time).
 //@inject bitar/src/chunk.rs
 #[cfg(kani)]
 mod verif_kani {
     use super::*;
 
-    /// deterministic stand-in for HashSum::b2_digest
-    pub(crate) fn stub_digest(data: &[u8]) -> HashSum {
-        let mut sum = [0x5au8; 64];
-        let mut i = 0;
-        while i < data.len() && i < 3 {
-            sum[i] = data[i];
-            sum[63 - i] = data[i] ^ 0xff;
-            i += 1;
-        }
-        sum[3] = data.len() as u8;
+    const D: u8 = 0x5a;
+    /// stand-in for HashSum::b2_digest
+    pub(crate) fn const_digest(_data: &[u8]) -> HashSum {
+        let sum = [D; 64];
         HashSum::from(&sum[..])
     }
 
-    fn any_chunk() -> (Chunk, [u8; 3], usize) {
-        let data: [u8; 3] = kani::any();
-        let n: usize = kani::any();
-        kani::assume(n <= 3);
-        (Chunk(Bytes::copy_from_slice(&data[..n])), data, n)
-    }
-
-    fn any_hash() -> (HashSum, usize) {
+    fn any_hash() -> (HashSum, [u8; 64], usize) {
         let exp: [u8; 64] = kani::any();
         let el: usize = kani::any();
         kani::assume(el <= 64);
-        (HashSum::from(&exp[..el]), el)
+        (HashSum::from(&exp[..el]), exp, el)
     }
 
-    /// Ok(v) only if the first |expected| bytes of digest(delivered bytes) equal the descriptor hash,
-    /// and v carries exactly the delivered bytes; Err otherwise, carrying the rejected chunk.
+    /// Ok(v) only if the descriptor hash equals the first |hash| bytes of the digest of the delivered bytes,
+    /// and v carries exactly the delivered bytes and the truncated digest.
     #[kani::proof]
-    #[kani::stub(HashSum::b2_digest, stub_digest)]
-    #[kani::unwind(82)]
-    fn archive_chunk_verify() {
-        let (chunk, data, n) = any_chunk();
-        let (expected, el) = any_hash();
-        let digest = stub_digest(&data[..n]);
-        let ac = ArchiveChunk { chunk: chunk.clone(), expected_hash: expected.clone() };
-        assert!(ac.len() == n);
+    #[kani::stub(HashSum::b2_digest, const_digest)]
+    #[kani::unwind(66)]
+    fn archive_chunk_verify_ok() {
+        let (expected, exp, el) = any_hash();
+        let ac = ArchiveChunk { chunk: Chunk(Bytes::from_static(&[1, 2, 3])), expected_hash: expected };
+        assert!(ac.len() == 3);
         match ac.verify() {
             Ok(v) => {
-                assert!(v.chunk == chunk);
                 assert!(v.hash_sum.len() == el);
-                assert!(v.hash_sum.slice() == &digest.slice()[..el]);
-                assert!(expected.slice() == &digest.slice()[..el]);
+                let i: usize = kani::any();
+                kani::assume(i < el);
+                assert!(exp[i] == D);
+                assert!(v.hash_sum.slice()[i] == D);
+                assert!(v.chunk.len() == 3 && v.chunk.data()[0] == 1 && v.chunk.data()[1] == 2 && v.chunk.data()[2] == 3);
                 kani::cover!(el == 64);
             }
             Err(e) => {
-                assert!(expected.slice() != &digest.slice()[..el]);
-                assert!(e.invalid_chunk == chunk);
+                assert!(e.invalid_chunk.len() == 3 && e.invalid_chunk.data()[2] == 3);
                 kani::cover!(el == 1);
             }
         }
     }
 
+    /// Err only if the descriptor hash differs from the truncated digest (no spurious rejection)
+    #[kani::proof]
+    #[kani::stub(HashSum::b2_digest, const_digest)]
+    #[kani::unwind(66)]
+    fn archive_chunk_verify_err() {
+        let (expected, exp, el) = any_hash();
+        let ac = ArchiveChunk { chunk: Chunk(Bytes::new()), expected_hash: expected };
+        if ac.verify().is_err() {
+            let mut all = true;
+            let mut i = 0;
+            while i < el {
+                if exp[i] != D {
+                    all = false;
+                }
+                i += 1;
+            }
+            assert!(!all);
+        }
+    }
+
     /// VerifiedChunk::new / Chunk::verify hash the bytes they carry (full 64-byte digest).
     #[kani::proof]
-    #[kani::stub(HashSum::b2_digest, stub_digest)]
-    #[kani::unwind(82)]
+    #[kani::stub(HashSum::b2_digest, const_digest)]
+    #[kani::unwind(66)]
     fn verified_chunk_new() {
-        let (chunk, data, n) = any_chunk();
-        let digest = stub_digest(&data[..n]);
-        let v = VerifiedChunk::new(chunk.clone());
-        assert!(v.chunk == chunk);
-        assert!(v.hash_sum.len() == 64 && v.hash_sum.slice() == digest.slice());
+        let v = VerifiedChunk::new(Chunk(Bytes::from_static(&[7, 8])));
+        assert!(v.len() == 2 && v.data()[0] == 7 && v.data()[1] == 8);
+        assert!(v.hash().len() == 64);
+        let i: usize = kani::any();
+        kani::assume(i < 64);
+        assert!(v.hash().slice()[i] == D);
+        let v2 = Chunk(Bytes::from_static(&[9])).verify();
+        assert!(v2.len() == 1 && v2.hash().len() == 64 && v2.hash().slice()[i] == D);
     }
 
     /// decompress of a chunk stored raw (compression None) delivers the stored bytes unchanged and
     /// passes the descriptor hash through untouched.
     #[kani::proof]
-    #[kani::unwind(82)]
+    #[kani::unwind(66)]
     fn compressed_archive_chunk_raw_decompress() {
-        let (chunk, data, n) = any_chunk();
-        let (expected, el) = any_hash();
+        let (expected, exp, el) = any_hash();
         let cac = CompressedArchiveChunk {
-            chunk: CompressedChunk { data: chunk.0.clone(), source_size: kani::any(), compression: None },
-            expected_hash: expected.clone(),
+            chunk: CompressedChunk { data: Bytes::from_static(&[4, 5, 6]), source_size: kani::any(), compression: None },
+            expected_hash: expected,
         };
-        assert!(cac.len() == n);
+        assert!(cac.len() == 3);
         match cac.decompress() {
             Ok(ac) => {
-                assert!(ac.chunk == chunk);
-                assert!(ac.expected_hash.len() == el && ac.expected_hash.slice() == expected.slice());
+                assert!(ac.chunk.len() == 3 && ac.chunk.data()[0] == 4 && ac.chunk.data()[2] == 6);
+                assert!(ac.expected_hash.len() == el);
+                let i: usize = kani::any();
+                kani::assume(i < el);
+                assert!(ac.expected_hash.slice()[i] == exp[i]);
             }
             Err(_) => assert!(false),
         }
